@@ -278,6 +278,7 @@ def draw_modal(ch, rng, nmax=6):
     full_k = ch.flip(1, 3, "full_k")
     full_b = ch.flip(1, 3, "full_b")
     mkind = ch.weighted([2, 2, 1], "mkind")  # None, vector, full
+    diag2d = ch.flip(1, 4, "diag_as_2d")  # uncoupled matrices handed over as 2-D (diagonal) arrays
     desc = dict(n=n, nrb=nrb, nel=nel, nrf=nrf, full_k=full_k, full_b=full_b, mkind=mkind, rf_mask=rfmodes is not None and rfmodes.dtype == bool, rf_at=[int(i) for i in rf_idx] if nrf else [])
 
     def values(rng):
@@ -313,8 +314,34 @@ def draw_modal(ch, rng, nmax=6):
             m = md
         elif mkind == 2:
             m = block_full(md, el_idx, 0.1)
-        mod = SimpleNamespace(n=n, nrb=nrb, nel=nel, nrf=nrf, rfmodes=rfmodes, m=m, b=b, k=k, desc=desc)
+        if diag2d:
+            k = np.diag(k) if np.ndim(k) == 1 else k
+            b = np.diag(b) if np.ndim(b) == 1 else b
+            if m is not None and np.ndim(m) == 1:
+                m = np.diag(m)
+        mod = SimpleNamespace(n=n, nrb=nrb, nel=nel, nrf=nrf, rfmodes=rfmodes, m=m, b=b, k=k, desc=dict(desc, diag2d=diag2d))
         mod.revalue = values
+
+        def redesignate(rng_):
+            """The SAME matrix objects with other modes designated residual-flexibility modes
+            (same counts; only without coupling, so that every partition is block-diagonal)."""
+            if nrf == 0 or nel == 0 or full_k or full_b or mkind == 2:
+                return None
+            pos = np.arange(nrb, n)
+            new_rf = pos[np.sort(rng_.permutation(nel + nrf)[:nrf])]
+            if rfmodes is not None and rfmodes.dtype == bool:
+                rfm = np.zeros(n, bool)
+                rfm[new_rf] = True
+            else:
+                rfm = new_rf
+            m2 = SimpleNamespace(**{k_: v_ for k_, v_ in vars(mod).items()})
+            m2.rfmodes = rfm
+            m2.desc = dict(mod.desc, rf_at=[int(i) for i in new_rf])
+            m2.revalue = values
+            m2.redesignate = redesignate
+            return m2
+
+        mod.redesignate = redesignate
         return mod
 
     return values(rng)
@@ -370,6 +397,12 @@ def scenario_uf(ch, tr, st):
     mod0 = mod
     for cyc in range(ncycles):
         mod = mod0.revalue(rng) if (revalue and cyc > 0) else mod0
+        if cyc > 0 and not revalue and ch.flip(1, 2, "redesignate_rf"):
+            # same matrices (same objects), other modes treated as residual flexibility
+            alt = mod0.redesignate(rng)
+            if alt is not None:
+                mod = alt
+                st.fault("rf_redesignated_same_matrices")
         sol = SimpleNamespace(a=mk((mod.n, nt)), v=mk((mod.n, nt)), d=mk((mod.n, nt)))
         if has_pg:
             sol.pg = mk((2, nt))
@@ -953,6 +986,11 @@ def scenario_campaign(ch, tr, st):
         ev.h = h / 2 if (e > 0 and ch.flip(1, 3, "event_own_step")) else h  # events need not share a time step
         ev.xfixed = None
         ev.mod = mod.revalue(rng) if (model_varies and e > 0) else mod
+        if e > 0 and not model_varies and ch.flip(1, 4, "redesignate_rf"):
+            alt = mod.redesignate(rng)
+            if alt is not None:
+                ev.mod = alt
+                st.fault("rf_redesignated_same_matrices")
         ev.peak_factor = 3.0
         ev.resp_time = None
         if ev.domain == "psd":
@@ -966,14 +1004,14 @@ def scenario_campaign(ch, tr, st):
             ev.presolved = False
             ev.solved = {}
             ev.fs_kind = ch.weighted([3, 1], "fs_kind")
-            if mod.rfmodes is not None and mod.desc["rf_at"] and mod.desc["rf_at"][0] < mod.nrb + mod.nel:
+            if ev.mod.rfmodes is not None and ev.mod.desc["rf_at"] and (ev.mod.desc["rf_at"][0] < mod.nrb + mod.nel or ev.mod is not mod):
                 # SolveUnc.fsolve raises IndexError in _solve_freq_rb when residual-flexibility
                 # modes are numbered before elastic modes and there are rigid-body modes (the
                 # rb partition is then an index array: `v[rb, pvnz] = ...`).  A limitation of the
                 # frequency-domain solver (C02's territory, observation O6 in DESIGN.md), not of
                 # the bookkeeping: such events use FreqDirect.
                 ev.fs_kind = 1
-            rfidx_ = None if mod.rfmodes is None else (np.flatnonzero(mod.rfmodes) if mod.rfmodes.dtype == bool else mod.rfmodes)
+            rfidx_ = None if ev.mod.rfmodes is None else (np.flatnonzero(ev.mod.rfmodes) if ev.mod.rfmodes.dtype == bool else ev.mod.rfmodes)
 
             def mkfs(mats, _k=ev.fs_kind, _rf=rfidx_):
                 m_, b_, k_ = mats
@@ -1882,5 +1920,5 @@ ASSUMPTIONS = [
 EXPECTED_FAULTS = [
     "psd_domain", "clock_jump_backwards", "clock_jump_forwards", "external_maxmin", "merge_rename", "mixed_abscissa", "model_varies_between_events", "zero_force_psd_row", "nan_cells", "ties", "ties_quantised", "one_column_ext", "label_mismatch", "j_out_of_order", "interleaved_events", "view_drfunc",
     "cache_reuse", "cache_reuse_repeat_uf", "stale_extreme_rebuild", "shared_DR_Event", "envelope_multi_event", "split_merge", "calc_ext",
-    "deep_run", "integer_table", "inf_cells", "mixed_depth_tree", "merge_of_merged_results", "force_trimming", "psd_all_solved_before_recovery", "checkpoint_saved", "crash_restart_from_checkpoint", "crash_restart_from_scratch", "crash_lost_cases_redone", "summary_copy", "summary_copy_stripped",
+    "deep_run", "rf_redesignated_same_matrices", "integer_table", "inf_cells", "mixed_depth_tree", "merge_of_merged_results", "force_trimming", "psd_all_solved_before_recovery", "checkpoint_saved", "crash_restart_from_checkpoint", "crash_restart_from_scratch", "crash_lost_cases_redone", "summary_copy", "summary_copy_stripped",
 ]
